@@ -4,7 +4,9 @@
 //   c16 batch     stdin: "<id> <mode> <base64 xml>"   mode: b = as built (DocumentBuilder only, no static analysis),
 //                                                            p = public entry point parse_XML_buffer(buf, Document*, true)
 //                                                            t = the input is XTA text: parse_XTA(buf, DocumentBuilder*, true), as built
-//   stdout per case:  BEGIN id / RC <n|EXC:class> / F <key> <value> ... / E <path> <msg> / W <path> <msg> / END id
+//   stdout per case:  BEGIN id / RC <n|EXC:class> / F <key> <value> ... / E <path> <msg> / W <path> <msg> / A ... / END id
+//     A <E|W> <start path> <start line> <end path> <end line> <msg>     both anchors of every diagnostic: a diagnostic is attributed
+//                                                                       to the block its range lies in, from its first to its last character
 // Identifier nodes are printed with the type of the symbol they are bound to, so a changed binding is a changed line.
 #include "c08_trace.hpp"
 #include "c08_walker.hpp"
@@ -163,6 +165,12 @@ int main(int, char**)
             std::cout << "E " << c08::q(e.start.path ? e.start.path->c_str() : "") << " " << e.start.line << " " << vh::quote(e.msg) << "\n";
         for (auto& e : doc->get_warnings())
             std::cout << "W " << c08::q(e.start.path ? e.start.path->c_str() : "") << " " << e.start.line << " " << vh::quote(e.msg) << "\n";
+        auto anchors = [&](const char* tag, const UTAP::error_t& e) {
+            std::cout << "A " << tag << " " << c08::q(e.start.path ? e.start.path->c_str() : "") << " " << e.start.line << " "
+                      << c08::q(e.end.path ? e.end.path->c_str() : "") << " " << e.end.line << " " << vh::quote(e.msg) << "\n";
+        };
+        for (auto& e : doc->get_errors()) anchors("E", e);
+        for (auto& e : doc->get_warnings()) anchors("W", e);
         std::cout << "END " << id << "\n";
         std::cout.flush();
     }
